@@ -19,6 +19,7 @@ CONSTANTS Cfgs,        \* set of authenticator/store configurations
           Export
 
 C == INSTANCE Ceremony
+CL == INSTANCE ClientCer
 P == INSTANCE CerProps
 
 VARIABLES plan, run, idx, st, obs, phase
@@ -40,7 +41,7 @@ Init ==
 Begin ==
     /\ phase = "idle" /\ idx < Len(plan.cers)
     /\ LET c == plan.cers[idx + 1] IN
-       /\ st' = [st EXCEPT !.cer = C!NewCer(c.api, c.op, c.req, c.env)]
+       /\ st' = [st EXCEPT !.cer = IF c.api = "client" THEN CL!NewCer(c.op, c.req, c.env) ELSE C!NewCer(c.api, c.op, c.req, c.env)]
        /\ obs' = P!Observe(obs, [ev |-> "Begin", d |-> [api |-> c.api, op |-> c.op, req |-> c.req, env |-> c.env]])
     /\ idx' = idx + 1
     /\ phase' = "running"
@@ -49,7 +50,8 @@ Begin ==
 \* one step of the ceremony in progress: a trait call or the result
 StepCer ==
     /\ phase = "running" /\ ~st.cer.done
-    /\ LET r == C!Step(plan.cfg, st.cer, st.store, st.nnew) IN
+    /\ LET r == IF st.cer.api = "client" THEN CL!Step(plan.cfg, st.cer, st.store, st.nnew)
+                ELSE C!Step(plan.cfg, st.cer, st.store, st.nnew) IN
        /\ st' = [store |-> r.store, nnew |-> r.nnew, cer |-> r.cer]
        /\ obs' = P!Observe(obs, r.ev)
     /\ UNCHANGED <<plan, run, idx, phase>>
@@ -205,5 +207,117 @@ C03_Cers ==
     { << C03_Reg("r1", "u1", rk), C03_Reg(r, "u2", TRUE),
          Cer("ctap2", "ga", [BaseReq EXCEPT !.rp = ra, !.allow = a, !.allowGiven = g, !.uv = uv], [BaseEnv EXCEPT !.uv = UvOk(TRUE, uv)]) >> :
         rk \in BOOLEAN, r \in {"r1", "r2"}, ra \in {"r1", "r2"}, a \in C03_Allow, g \in BOOLEAN, uv \in BOOLEAN }
+
+-----------------------------------------------------------------------------
+(* client-level requests                                                    *)
+
+NoCprf == [kind |-> "absent", eval |-> "absent", byCred |-> <<>>, byCredGiven |-> FALSE, badlen |-> FALSE]
+\* origin / RP-ID representatives: [origin, rpid, rp (effective RP ID by definition), dom (assert_domain's verdict)]
+DomOk1   == [origin |-> "o.r1w", rpid |-> "r1", rp |-> "r1", dom |-> "ok"]
+DomOk1p  == [origin |-> "o.r1p", rpid |-> "r1", rp |-> "r1", dom |-> "ok"]
+DomHost  == [origin |-> "o.r1", rpid |-> "absent", rp |-> "r1", dom |-> "ok"]
+DomOk2   == [origin |-> "o.r2", rpid |-> "absent", rp |-> "r2", dom |-> "ok"]
+DomEvil  == [origin |-> "o.evil", rpid |-> "r1", rp |-> "r1", dom |-> "OriginRpMissmatch"]
+DomHttp  == [origin |-> "o.http", rpid |-> "r1", rp |-> "r1", dom |-> "UnprotectedOrigin"]
+DomSufx  == [origin |-> "o.r1w", rpid |-> "com", rp |-> "com", dom |-> "InvalidRpId"]
+DomOther == [origin |-> "o.r2", rpid |-> "r1", rp |-> "r1", dom |-> "OriginRpMissmatch"]
+DomLocal == [origin |-> "o.local", rpid |-> "absent", rp |-> "localhost", dom |-> "InsecureLocalhostNotAllowed"]
+DomIp    == [origin |-> "o.ip", rpid |-> "absent", rp |-> "none", dom |-> "OriginMissingDomain"]
+DomsOk  == {DomOk1, DomOk1p, DomHost, DomOk2}
+DomsBad == {DomEvil, DomHttp, DomSufx, DomOther, DomLocal, DomIp}
+
+BaseCReq ==
+    [BaseReq EXCEPT !.rp = "r1"] @@
+    [origin |-> "o.r1w", rpid |-> "r1", dom |-> "ok", chal |-> "c32", authSel |-> TRUE, residentKey |-> "absent",
+     requireRk |-> FALSE, uvreq |-> "preferred", credProps |-> "absent", cdmode |-> "default", cprf |-> NoCprf]
+WithDom(r, d) == [r EXCEPT !.origin = d.origin, !.rpid = d.rpid, !.rp = d.rp, !.dom = d.dom]
+\* the CTAP-shaped prf member of a client request: what a well-formed request means
+WithCprf(r, c) == [r EXCEPT !.cprf = c,
+                            !.prf = [given |-> c.kind # "absent", eval |-> c.eval, byCred |-> c.byCred, byCredGiven |-> c.byCredGiven]]
+
+\* C04 through the client: userVerification -> uv, up = true
+C04c_Cers ==
+    { << Cer("client", op, [BaseCReq EXCEPT !.uvreq = u, !.authSel = s], [BaseEnv EXCEPT !.uv = a]) >> :
+        op \in {"mc", "ga"}, u \in {"required", "preferred", "discouraged"}, s \in BOOLEAN, a \in C04_Answers }
+
+\* C11 through the client: capability x residentKey x requireResidentKey x credProps, then an assertion
+C11c_Cers ==
+    { << Cer("client", "mc", [BaseCReq EXCEPT !.residentKey = rk, !.requireRk = rr, !.credProps = cp], BaseEnv),
+         Cer("client", "ga", BaseCReq, BaseEnv) >> :
+        rk \in {"absent", "discouraged", "preferred", "required"}, rr \in BOOLEAN, cp \in {"absent", "false", "true"} }
+
+\* C02 through the client
+C02c_Cfgs == { [BaseCfg EXCEPT !.idLen = n, !.counterOn = c] : n \in {16, 64}, c \in BOOLEAN }
+C02c_AlgLists == { <<>>, <<"ES256">>, <<"RS256", "ES256">>, <<"EdDSA", "unknown">>, <<"RS256">>, <<"unknown", "ES256", "EdDSA">> }
+C02c_Cers ==
+    { << Cer("client", "mc", [WithDom(BaseCReq, d) EXCEPT !.algs = a, !.chal = ch, !.cdmode = m], BaseEnv) >> :
+        d \in DomsOk \cup DomsBad, a \in C02c_AlgLists, ch \in {"c0", "c1", "c32", "c1024"}, m \in {"default", "extra", "hash"} }
+    \cup
+    { << Cer("client", "mc", [WithDom(BaseCReq, DomOk1) EXCEPT !.user = "u1", !.residentKey = "required"], BaseEnv),
+         Cer("client", "mc", [WithDom(BaseCReq, d) EXCEPT !.user = "u2", !.exclude = x, !.excludeGiven = TRUE], BaseEnv),
+         Cer("client", "mc", [WithDom(BaseCReq, DomOk1p) EXCEPT !.user = "u2", !.algs = <<>>], BaseEnv) >> :
+        d \in {DomOk1, DomOk2, DomEvil}, x \in {<<>>, <<"n1">>, <<"x1">>} }
+
+\* C03 through the client
+C03c_Cers ==
+    { << Cer("client", "mc", [WithDom(BaseCReq, DomOk1) EXCEPT !.user = "u1", !.residentKey = rk], BaseEnv),
+         Cer("client", "mc", [WithDom(BaseCReq, DomOk2) EXCEPT !.user = "u2", !.residentKey = "required"], BaseEnv),
+         Cer("client", "ga", [WithDom(BaseCReq, d) EXCEPT !.allow = a, !.allowGiven = g, !.uvreq = u, !.cdmode = m, !.chal = ch],
+             [BaseEnv EXCEPT !.uv = UvOk(TRUE, u # "discouraged")]) >> :
+        rk \in {"discouraged", "required"}, d \in {DomOk1, DomHost, DomOk2, DomEvil, DomHttp},
+        a \in {<<>>, <<"n1">>, <<"n2">>, <<"x1">>, <<"n2", "n1">>}, g \in BOOLEAN,
+        u \in {"required", "discouraged"}, m \in {"default", "extra", "hash"}, ch \in {"c0", "c32"} }
+
+-----------------------------------------------------------------------------
+(* C09: PRF                                                                 *)
+
+C09_Cfgs == { [BaseCfg EXCEPT !.hmac = h, !.mc = mc] : h \in {"off", "uvonly", "withoutuv"}, mc \in BOOLEAN }
+C09_Stores == { << <<Cred("c1", "r1", "u1", NoCtr, "both"), Cred("c2", "r1", "u2", NoCtr, "uv"),
+                     Cred("c3", "r1", "u2", NoCtr, "none")>> >> }
+PrfReq(eval, byCred, given) == [given |-> TRUE, eval |-> eval, byCred |-> byCred, byCredGiven |-> given]
+By(id, n) == [id |-> id, n |-> n]
+C09_McPrfs == { NoPrfReq, PrfReq("absent", <<>>, FALSE), PrfReq("one", <<>>, FALSE), PrfReq("two", <<>>, FALSE) }
+C09_GaPrfs(id) == { NoPrfReq, PrfReq("absent", <<>>, FALSE), PrfReq("one", <<>>, FALSE), PrfReq("two", <<>>, FALSE),
+                    PrfReq("one", <<By(id, "two")>>, TRUE), PrfReq("absent", <<By(id, "one")>>, TRUE),
+                    PrfReq("two", <<By("x1", "one")>>, TRUE), PrfReq("absent", <<By("x1", "one")>>, TRUE),
+                    PrfReq("one", <<>>, TRUE), PrfReq("one", <<By("x1", "two"), By(id, "one")>>, TRUE) }
+C09_Cers ==
+    { << Cer("ctap2", "mc", [BaseReq EXCEPT !.prf = p, !.hs = hs, !.uv = uv, !.user = "u3"],
+             [BaseEnv EXCEPT !.uv = UvOk(TRUE, v)]),
+         Cer("ctap2", "ga", [BaseReq EXCEPT !.allow = <<"n1">>, !.allowGiven = TRUE, !.prf = PrfReq("two", <<>>, FALSE), !.uv = uv2],
+             [BaseEnv EXCEPT !.uv = UvOk(TRUE, uv2)]) >> :
+        p \in C09_McPrfs, hs \in {"absent", "true", "false"}, uv \in BOOLEAN, v \in BOOLEAN, uv2 \in BOOLEAN }
+    \cup
+    { << Cer("ctap2", "ga", [BaseReq EXCEPT !.allow = <<id>>, !.allowGiven = TRUE, !.prf = p, !.uv = uv],
+             [BaseEnv EXCEPT !.uv = UvOk(TRUE, v)]) >> :
+        id \in {"c1", "c2", "c3"}, p \in C09_GaPrfs("c1") \cup C09_GaPrfs("c2"), uv \in BOOLEAN, v \in BOOLEAN }
+
+\* client level: hashing, precedence of prf over prfAlreadyHashed, validation
+Cprf(kind, eval, byCred, given, badlen) == [kind |-> kind, eval |-> eval, byCred |-> byCred, byCredGiven |-> given, badlen |-> badlen]
+C09c_RegPrfs ==
+    { Cprf(k, e, <<>>, FALSE, b) : k \in {"prf", "hashed", "both"}, e \in {"absent", "one", "two"}, b \in BOOLEAN }
+    \cup { Cprf(k, "one", <<By("c1", "one")>>, TRUE, FALSE) : k \in {"prf", "hashed", "both"} }
+    \cup { Cprf(k, "one", <<>>, TRUE, FALSE) : k \in {"prf", "hashed"} }
+C09c_AuthPrfs ==
+    { Cprf(k, e, bc, g, b) : k \in {"prf", "hashed", "both"}, e \in {"absent", "one", "two"}, b \in BOOLEAN,
+        bc \in {<<>>}, g \in BOOLEAN }
+    \cup
+    { Cprf(k, e, bc, TRUE, b) : k \in {"prf", "hashed"}, e \in {"absent", "one"}, b \in BOOLEAN,
+        bc \in { <<By("c1", "two")>>, <<By("c2", "one")>>, <<By("x1", "one")>>, <<By("k:empty", "one")>>,
+                 <<By("k:bad64", "one")>>, <<By("c1", "one"), By("c2", "two")>> } }
+C09c_Cfgs == { [BaseCfg EXCEPT !.hmac = h, !.mc = TRUE] : h \in {"off", "uvonly", "withoutuv"} }
+C09c_Cers ==
+    { << Cer("client", "mc", [WithCprf(BaseCReq, c) EXCEPT !.uvreq = u, !.user = "u3"], [BaseEnv EXCEPT !.uv = UvOk(TRUE, u # "discouraged")]) >> :
+        c \in C09c_RegPrfs, u \in {"required", "discouraged"} }
+    \cup
+    { << Cer("client", "ga", [WithCprf(BaseCReq, c) EXCEPT !.uvreq = u, !.allow = a, !.allowGiven = (a # <<"none">>)],
+             [BaseEnv EXCEPT !.uv = UvOk(TRUE, u # "discouraged")]) >> :
+        c \in C09c_AuthPrfs, u \in {"required", "discouraged"}, a \in { <<"c1">>, <<"c2", "c1">>, <<>> } }
+    \cup
+    { << Cer("client", "ga", [WithCprf(BaseCReq, c) EXCEPT !.allowGiven = FALSE], BaseEnv) >> : c \in C09c_AuthPrfs }
+
+\* reduced client configurations for the quick tier
+C03cq_Cers == { c \in C03c_Cers : c[3].req.chal = "c32" /\ c[3].req.cdmode # "extra" /\ c[1].req.residentKey = "required" }
+C02cq_Cers == { c \in C02c_Cers : Len(c) = 3 \/ c[1].req.chal \in {"c0", "c32"} }
 
 =============================================================================
